@@ -272,5 +272,48 @@ def run(ctx):
     ctx.ob("C04.round-trip", "z(x,y, eta(x,y,z)) == z", ring.of(got).eq(ring.of(z)), "does not normalise to the identity (rules nan_to_num_id, sinh_arcsinh)", None, K.where("spatial.z", "xy_eta"))
     got = K("spatial.z", "rhophi_eta", r, p, K("spatial.eta", "rhophi_z", r, p, z)[0])[0]
     ctx.ob("C04.round-trip", "z(r,p, eta(r,p,z)) == z", ring.of(got).eq(ring.of(z)), "does not normalise to the identity", None, K.where("spatial.z", "rhophi_eta"))
-    ctx.decline("round trips through theta (tan∘arccos) and tau (branch on t >= 0, copysign), phi from arctan2 of converted coordinates")
+    _round_trip_systems(ctx, L)
     ctx.decline("float rounding of round trips; element-wise behaviour inside NumPy/Awkward wrappers (C03)")
+
+
+ACCESSORS = {"planar.x": "x", "planar.y": "y", "planar.rho": "rho", "planar.phi": "phi", "spatial.z": "z", "spatial.theta": "theta",
+             "spatial.eta": "eta", "lorentz.t": "t", "lorentz.tau": "tau"}
+
+
+def _round_trip_systems(ctx, L):
+    """to_T() then to_S() is the identity for every pair of systems: every accessor entry, applied to S-stored coordinates
+    written by their documented definitions in Cartesian generators, denotes the documented coordinate of those generators"""
+    from .. import denote
+
+    ctx.rule("C04.round-trip-systems",
+             "for each of the 9 coordinate accessors c and every storage system S: (a) the all-Cartesian entry of c is the documented definition of c "
+             "(the one used to write stored coordinates in generators); (b) c's entry for S, applied to S's stored coordinates written in Cartesian "
+             "generators (tau-stored operands: X, Y, Z, TAU > 0), has the same normal form as the Cartesian entry on the generators.  (a)+(b) for the "
+             "accessors of T on S and of S on T compose to: v.to_T().to_S() returns v's stored coordinates on the representable domain.  HELD only by "
+             "proof; VIOLATED only with a concrete differing point; otherwise undecided (listed)")
+    D = denote.Denoter(L)
+    n = 0
+    for short, kind in ACCESSORS.items():
+        ents = {e.signame: e for e in entries_of(L, "vector._compute." + short)}
+        cart = next((e for e in ents.values() if all(k in ("x", "y", "z", "t") for ks in e.kinds for k in ks)), None)
+        if cart is None:
+            raise AnalysisError(f"anchor: {short} has no all-Cartesian entry")
+        gens = [denote.generators(1)]
+        ring = denote.make_ring(gens, 0)
+        _, nodes, _ = D.denote(cart, gens, [])
+        want = denote.stored_in_generators(kind, gens[0])
+        ok = ring.of(nodes[0]).eq(ring.of(want))
+        n += 1
+        ctx.ob("C04.round-trip-systems", f"{cart.name} is the documented {kind}", ok,
+               f"the Cartesian entry computes {ir.show(nodes[0])[:160]}, the documented definition is {ir.show(want)[:160]}", None, fn_where(cart.fn))
+    undecided = []
+    for rec in denote.entry_agreement(L, set(ACCESSORS)):
+        n += 1
+        if rec.status == "undecided":
+            undecided.append(rec.construct)
+            continue
+        ctx.ob("C04.round-trip-systems", rec.construct, rec.status == "proved", rec.message, rec.witness, rec.where, sample=rec.sample)
+    ctx.anchor("accessor entries in the round-trip rule", n, 50)
+    ctx.analysed["round_trip_undecided"] = undecided
+    if undecided:
+        ctx.decline("C04.round-trip-systems left undecided: " + ", ".join(undecided))
